@@ -139,3 +139,26 @@ def v_stat_call_leaves_attribute_table(c, dims):
         for k in set(after) - set(before):
             dict.__delitem__(at.attrs.ATTRS, k)  # restore for the following contracts
     c.ensure_true("attribute_table_unchanged", after == before, f"new keys {sorted(set(after) - set(before))}")
+
+
+@contract(SA + "stats", props=["C18", "C20"], name="unknown_name_then_valid", scenarios=[{"dims": ("pos", "freq", "dir")}], uses=[ONED, DF])
+def v_stats_unknown_name(c, dims):
+    """a call with an unknown statistic name is rejected with ValueError and leaves no trace: the
+    following call answers exactly as on a fresh object"""
+    da = c.spectrum(dims)
+    raised = False
+    try:
+        da.spec.stats(["hs", "no_such_statistic"])
+    except ValueError:
+        raised = True
+    c.ensure_true("unknown_statistic_rejected_with_value_error", raised, "no ValueError")
+    bad_container = False
+    try:
+        da.spec.stats("hs")
+    except ValueError:
+        bad_container = True
+    c.ensure_true("non_container_rejected_with_value_error", bad_container, "no ValueError")
+    out = da.spec.stats(["hs"])
+    V = View(da)
+    pos = c.position(V)
+    c.ensure_eq("result_after_a_rejected_call_is_that_of_a_fresh_object", c.value(out["hs"], pos), s_hs(c.m, V, pos))
